@@ -59,6 +59,14 @@ def gen_startup(r, ncases):
             else:
                 w = r.pick(["start", "reset", "init"])
             ops.append(f"su.{w} fan={fid}")
+    # restarts while something else holds the database file lock for a second or two (real time)
+    for _ in range(2 if ncases < 1000 else 12):
+        ops.append("#case su parallel=1 dblock")
+        ops.append("su.open parallel=1 yield_us=0")
+        ops.append(_fan_line("fa", "hwmon", 0, 0, 1, r.chance(0.3), r.pick([8, 16, 32]), r.range(5, 90)))
+        ops.append("su.start fan=fa")
+        ops.append(f"su.start fan=fa hold_ms={r.range(1300, 2600)}")
+        ops.append("su.start fan=fa")
     return ops
 
 
